@@ -478,15 +478,6 @@ func TestVerifC05Proxy(t *testing.T) {
 		if left := kit.WaitNoGoroutineIn(20*time.Second, "station/lib.halfPipe", "station/lib.Proxy"); left != nil {
 			rec.Violation("teardown:goroutine-left-behind", "a relay goroutine is still alive after Proxy returned", map[string]interface{}{"case": label, "stack": left[0].Raw})
 		}
-		if mode != "dial-refused" {
-			deadline := time.Now().Add(20 * time.Second)
-			for client.Closes() == 0 && time.Now().Before(deadline) {
-				time.Sleep(100 * time.Microsecond)
-			}
-			if client.Closes() == 0 {
-				rec.Violation("teardown:client-conn-never-closed", "client connection never closed after Proxy returned", map[string]interface{}{"case": label})
-			}
-		}
 		// summary line
 		var ts tunnelStats
 		line := sw.String()
@@ -500,6 +491,17 @@ func TestVerifC05Proxy(t *testing.T) {
 			}
 		} else {
 			rec.Violation("summary:missing", "no tunnel summary was logged", map[string]interface{}{"case": label})
+		}
+		// a failed covert dial (refused, or reset before connect() returned) ends Proxy before the relay
+		// starts; closing the client is then the caller's job (handleNewConn) and outside the statement
+		if ts.CovertDialErr == "" {
+			deadline := time.Now().Add(20 * time.Second)
+			for client.Closes() == 0 && time.Now().Before(deadline) {
+				time.Sleep(100 * time.Microsecond)
+			}
+			if client.Closes() == 0 {
+				rec.Violation("teardown:client-conn-never-closed", "client connection never closed after Proxy returned", map[string]interface{}{"case": label, "client_ops": opsTail(client), "log": sw.String()})
+			}
 		}
 		gotDown := client.Written()
 		if !bytes.HasPrefix(down, gotDown) {
